@@ -91,6 +91,7 @@ pub fn generate(tier: &str, seed: u64) -> Vec<String> {
         let mut json: Vec<String> = vec![];
         let mut model: Vec<String> = vec![];
         let mut modelled = dt.es.is_some();
+        let mut bit_range: Option<(u64, u64)> = None;
         // array -> array
         let mut perm: Vec<usize> = (0..rank).collect();
         if rng.chance(1, 2) {
@@ -104,7 +105,20 @@ pub fn generate(tier: &str, seed: u64) -> Vec<String> {
             Some(es) => {
                 let k2 = rng.below(8);
                 if dt.numeric && es > 1 && k2 == 0 { json.push("{\"name\":\"numcodecs.pcodec\",\"configuration\":{}}".into()); modelled = false; model.push("pcodec".into()); }
-                else if (dt.name == "bool" || (dt.numeric && !dt.float)) && k2 == 1 { json.push("{\"name\":\"packbits\"}".into()); modelled = false; model.push("packbits".into()); }
+                else if (dt.name == "bool" || (dt.numeric && !dt.float)) && k2 == 1 {
+                    // packbits with its options: padding byte first/last, and (unsigned types) a bit range the data stays within
+                    let mut cfgs: Vec<String> = vec![];
+                    match rng.below(4) { 0 => cfgs.push("\"padding_encoding\":\"first_byte\"".into()), 1 => cfgs.push("\"padding_encoding\":\"last_byte\"".into()), 2 => cfgs.push("\"padding_encoding\":\"none\"".into()), _ => {} }
+                    if dt.name.starts_with("uint") && rng.chance(1, 2) {
+                        let bits = (es * 8) as u64;
+                        let first = rng.below(bits);
+                        let last = rng.range(first, bits - 1);
+                        if rng.chance(2, 3) { cfgs.push(format!("\"first_bit\":{}", first)); cfgs.push(format!("\"last_bit\":{}", last)); bit_range = Some((first, last)); }
+                        else { cfgs.push(format!("\"last_bit\":{}", last)); bit_range = Some((0, last)); }
+                    }
+                    json.push(if cfgs.is_empty() { "{\"name\":\"packbits\"}".to_string() } else { format!("{{\"name\":\"packbits\",\"configuration\":{{{}}}}}", cfgs.join(",")) });
+                    modelled = false; model.push("packbits".into());
+                }
                 else if es == 1 { json.push("{\"name\":\"bytes\"}".into()); model.push(format!("bytes:little:{}", es)); }
                 else {
                     let e = if rng.chance(1, 2) { "big" } else { "little" };
@@ -138,7 +152,17 @@ pub fn generate(tier: &str, seed: u64) -> Vec<String> {
                 _ => { json.push("{\"name\":\"crc32c\"}".into()); model.push("crc32c".into()); }
             }
         }
-        let data = payload(&mut rng, &dt, &fill.1, nel);
+        let mut data = payload(&mut rng, &dt, &fill.1, nel);
+        if let Some((first, last)) = bit_range {
+            // keep every element within the encoded bit range (the codec is lossless on such values by its definition)
+            for e in data.iter_mut() {
+                let mut v = 0u64; for (i, b) in e.iter().enumerate() { v |= (*b as u64) << (8 * i); }
+                let width = last - first + 1;
+                let mask = if width == 64 { u64::MAX } else { ((1u64 << width) - 1) << first };
+                v &= mask;
+                for (i, b) in e.iter_mut().enumerate() { *b = (v >> (8 * i)) as u8; }
+            }
+        }
         out.push(format!("c03 codec dtype={} es={} shape={} fill={} modelled={} model={} json={} data={}", dt.name,
             dt.es.map(|e| e.to_string()).unwrap_or("v".into()), nl(&shape), hex(&fill.1), modelled as u8, model.join("|"),
             hex(format!("[{}]", json.join(",")).as_bytes()), show_elems(&data)));
